@@ -282,6 +282,6 @@ def subchecks(tier):
         SubCheck("samples", check_samples, strategy=strat_samples,
                  examples={"quick": 600, "thorough": 40000}, shards={"quick": 2, "thorough": 8}),
         SubCheck("invalid", check_invalid, strategy=strat_invalid,
-                 examples={"quick": 300, "thorough": 5000}, shards={"quick": 1, "thorough": 2}),
+                 examples={"quick": 400, "thorough": 5000}, shards={"quick": 2, "thorough": 2}),
         SubCheck("defaults", check_defaults, enumerate=enum_defaults, exhaustive=True),
     ]
